@@ -1418,6 +1418,102 @@ theorem handleQuery_eq_spec (s : State) (now : Nat) (p : RxPkt) (i : MyIntf) (re
   simp only [hreg, hresp]
   split <;> rfl
 
+/-! ### the end of a probe, and the times of the probes a registration creates -/
+
+/-- when a probe ends (no rename pending), every record of it that is filed under the probe's
+    name is active afterwards, and the probe is gone -/
+theorem expireProbe_activates (intfName : BList) (acc : Registry × List Event × List BList) (name : BList) (p : Probe)
+    (hl : alookup name acc.1.probing = some p) (hn : NoRen acc.1) :
+    (∀ a ∈ p.records, a.getName = name → (expireProbe intfName acc name).1.isActive a = true) ∧
+    alookup name (expireProbe intfName acc name).1.probing = none ∧
+    (p.records ≠ [] → ∀ w ∈ p.waiting, w ∈ (expireProbe intfName acc name).2.2) := by
+  have hren : p.records.filter (fun a => a.newName.isSome) = [] := by
+    rw [List.filter_eq_nil_iff]
+    intro a ha
+    simp [hn.2 name p (alookup_mem hl) a ha]
+  unfold expireProbe
+  simp only [hl, hren, List.foldl_nil, List.map_nil, List.append_nil]
+  by_cases he : p.records.isEmpty = true
+  · simp only [he, ↓reduceIte]
+    refine ⟨?_, alookup_aerase_self _ _, ?_⟩
+    · intro a ha
+      simp [List.isEmpty_iff.mp he] at ha
+    · intro hne
+      exact absurd (List.isEmpty_iff.mp he) hne
+  · simp only [he, Bool.false_eq_true, ↓reduceIte]
+    refine ⟨?_, alookup_aerase_self _ _, ?_⟩
+    · intro a ha hname
+      simp only [Registry.isActive, hname, alookup_aset_self, Option.getD_some, List.any_append, Bool.or_eq_true,
+        List.any_eq_true]
+      exact Or.inr ⟨a, ha, RR.matchesRR_self a⟩
+    · intro _ w hw
+      have : ∀ (l acc0 : List BList), w ∈ l ∨ w ∈ acc0 → w ∈ l.foldl (fun w x => sinsert x w) acc0 := by
+        intro l
+        induction l with
+        | nil => intro acc0 h; simpa using h
+        | cons x l ih =>
+          intro acc0 h
+          simp only [List.foldl_cons]
+          apply ih
+          rcases h with h | h
+          · rcases List.mem_cons.mp h with rfl | h
+            · exact Or.inr ((mem_sinsert _ _ _).mpr (Or.inl rfl))
+            · exact Or.inl h
+          · exact Or.inr ((mem_sinsert _ _ _).mpr (Or.inr h))
+      exact this _ _ (Or.inl hw)
+
+/-- `is_probing_done` never moves the times of a probe that exists and gives a probe it
+    creates the start time it is called with -/
+theorem probingDoneReg_times (r : Registry) (a : RR) (svc : BList) (t : Nat) (n : BList) :
+    (∀ q, alookup n r.probing = some q → ∃ p, alookup n (r.probingDoneReg a svc t).probing = some p ∧ p.start = q.start ∧ p.next = q.next) ∧
+    (alookup n r.probing = none → ∀ p, alookup n (r.probingDoneReg a svc t).probing = some p → p.start = t ∧ p.next = t) := by
+  unfold Registry.probingDoneReg
+  split
+  · exact ⟨fun q hq => ⟨q, hq, rfl, rfl⟩, fun hnone p hp => by rw [hnone] at hp; cases hp⟩
+  · by_cases e : n = a.getName
+    · subst e
+      obtain ⟨p, hp, hnew, hold⟩ := probeInsert_times r a svc t
+      exact ⟨fun q hq => ⟨p, hp, hold q hq⟩, fun hnone p' hp' => by rw [hp] at hp'; cases hp'; exact hnew hnone⟩
+    · have hne : alookup n (r.probeInsert a svc t).probing = alookup n r.probing := by
+        simp only [Registry.probeInsert]
+        exact alookup_aset_ne _ _ _ _ e
+      exact ⟨fun q hq => ⟨q, hne ▸ hq, rfl, rfl⟩, fun hnone p hp => by rw [hne, hnone] at hp; cases hp⟩
+
+/-- every probe that `prepare_announce` creates (for a name that was not being probed) starts,
+    and first sends, at `now + jitter`; probes that existed keep their times -/
+theorem prepareAnnounceReg_times (s : Service) (i : MyIntf) (r : Registry) (v4 : Bool) (now j : Nat) (n : BList) :
+    (alookup n r.probing = none → ∀ p, alookup n (prepareAnnounceReg s i r v4 now j).probing = some p →
+      p.start = now + j ∧ p.next = now + j) ∧
+    (∀ q, alookup n r.probing = some q → ∃ p, alookup n (prepareAnnounceReg s i r v4 now j).probing = some p ∧
+      p.start = q.start ∧ p.next = q.next) := by
+  unfold prepareAnnounceReg
+  split
+  · exact ⟨fun hnone p hp => (by rw [hnone] at hp; cases hp), fun q hq => ⟨q, hq, rfl, rfl⟩⟩
+  · split
+    · exact ⟨fun hnone p hp => (by rw [hnone] at hp; cases hp), fun q hq => ⟨q, hq, rfl, rfl⟩⟩
+    · -- invariant of the fold, by cases on whether the name was probed before
+      cases hl : alookup n r.probing with
+      | some q =>
+        refine ⟨fun h => (by cases h), fun q' hq' => ?_⟩
+        cases hq'
+        exact foldl_inv (fun b => ∃ p, alookup n b.probing = some p ∧ p.start = q.start ∧ p.next = q.next) _ _ r
+          ⟨q, hl, rfl, rfl⟩
+          (fun b a _ ⟨p, hp, h1, h2⟩ => by
+            obtain ⟨p', hp', h1', h2'⟩ := (probingDoneReg_times b a s.fullname (now + j) n).1 p hp
+            exact ⟨p', hp', h1'.trans h1, h2'.trans h2⟩)
+      | none =>
+        refine ⟨fun _ => ?_, fun q hq => by cases hq⟩
+        exact foldl_inv (fun b => ∀ p, alookup n b.probing = some p → p.start = now + j ∧ p.next = now + j) _ _ r
+          (fun p hp => by rw [hl] at hp; cases hp)
+          (fun b a _ hb p hp => by
+            cases hb' : alookup n b.probing with
+            | none => exact (probingDoneReg_times b a s.fullname (now + j) n).2 hb' p hp
+            | some q =>
+              obtain ⟨p', hp', h1, h2⟩ := (probingDoneReg_times b a s.fullname (now + j) n).1 q hb'
+              rw [hp'] at hp
+              cases hp
+              exact ⟨h1.trans (hb q hb').1, h2.trans (hb q hb').2⟩)
+
 /-! ### concrete interfaces and services for the non-vacuity examples -/
 
 /-- `eth0`, index 2, 192.168.1.10/24 -/
